@@ -306,6 +306,24 @@ func c03Tables(run *PropRun) {
 				nOb++
 			}
 		}
+		// (1e) ESC ESC and the timeout: the second ESC is a key typed right after an ESC, so it comes out as Esc with Alt
+		{
+			kesc := e.constInt(modPath, "KeyEsc")
+			altM := e.constInt(modPath, "ModAlt")
+			driverExpire = true
+			evs, why := decodeDriver(db, fs, tp, "\x1b\x1b")
+			one, why1 := decodeDriver(db, fs, tp, "\x1b")
+			driverExpire = false
+			ok := why == "" && why1 == "" && len(evs) == 1 && evs[0].Key == kesc && evs[0].Mod == altM && len(one) == 1 && one[0].Key == kesc && one[0].Mod == 0
+			g := run.AddObligation(fmt.Sprintf("keytable[%s]/esc-esc-is-alt-esc", te.Name), "table", BoolT(ok),
+				fmt.Sprintf("after the timeout a lone ESC is Esc, and ESC ESC is Esc with Alt (ESC immediately followed by a key yields that key with Alt): got %v %s / %v %s", one, why1, evs, why))
+			g.ReplayGo = replayKeyTableImports(te.Name, []string{"bytes"}, `
+	s.cells.Resize(80, 24)
+	evs := s.collectEventsFromInput(bytes.NewBufferString("\x1b\x1b"), true)
+	if len(evs) != 1 { fail("ESC ESC + timeout produced %d events", len(evs)); return }
+	if k, ok := evs[0].(*EventKey); !ok || k.Key() != KeyEsc || k.Modifiers() != ModAlt { fail("ESC ESC + timeout decoded to %v: the second ESC is a key typed after an ESC, want Esc with Alt", evs[0]); return }`)
+			nOb++
+		}
 		// (2) every key capability of the description is in the table with a key the description assigns to it
 		for i := 0; i < db.TI.NumFields(); i++ {
 			fname := db.TI.Field(i).Name()
@@ -620,6 +638,9 @@ func decodeDriverChunks(db *TermDB, base *State, tp PtrV, chunks []string) ([]ke
 	return all, ""
 }
 
+// driverExpire: whether the driver evaluation passes expire=true (the escape timeout has passed)
+var driverExpire = false
+
 type driverCarry struct {
 	st   *State
 	left string // bytes the previous call left in the buffer
@@ -661,7 +682,7 @@ func decodeDriverRun(db *TermDB, st *State, tp PtrV, seq string) ([]keyEnt, stri
 	nb := &StructV{Typ: bv.Typ, F: append([]Value(nil), bv.F...)}
 	nb.F[0] = SliceV{Elem: elem, Obj: ao, CLen: len(seq), CCap: len(seq)}
 	st.Mem[bobj] = nb
-	paths, err := db.Ev.Call(st, e.FindFunc(modPath+".(*tScreen).collectEventsFromInput"), []Value{tp, PtrV{Obj: bobj}, False()})
+	paths, err := db.Ev.Call(st, e.FindFunc(modPath+".(*tScreen).collectEventsFromInput"), []Value{tp, PtrV{Obj: bobj}, BoolT(driverExpire)})
 	if err != nil || len(paths) != 1 {
 		return nil, fmt.Sprintf("error %v paths=%d", err, len(paths)), nil, ""
 	}
